@@ -140,6 +140,8 @@ def canon(v):
         return v
     if v is None:
         return NONE
+    if isinstance(v, list) and any(x is v for x in v):
+        return "~cyc"                      # a self-referential list (see pyval)
     if isinstance(v, (list, tuple)):
         return "[" + ";".join(canon(x) for x in v) + "]"
     return repr(v)
@@ -159,6 +161,10 @@ def answer_text(nd, j):
 
 
 def pyval(text):
+    if text == "~cyc":                     # a value with a reference cycle: a list that contains itself
+        cyc = []
+        cyc.append(cyc)
+        return cyc
     v = SPECIAL.get(text, text) if isinstance(text, str) else text
     return list(v) if isinstance(v, list) else v
 
